@@ -1,7 +1,8 @@
-/- placeholder driver for C07: replaced when the model is built -/
-import AcnModel.Wire
-open Lean Acn.Wire
+/-
+  Driver for C07: sorting-based algorithms (greedy / round robin / uncontrolled) over a sequence
+  of `schedule()` calls.  The request / response format is documented in `AcnModel/WireSorted.lean`.
+-/
+import AcnModel.WireSorted
+open Acn.Wire
 
-def handle (_ : Json) : Except String Json := throw "driver for C07 not built yet"
-
-def main : IO Unit := runDriver handle
+def main : IO Unit := runDriver Acn.WireSorted.handle
